@@ -308,7 +308,34 @@ class LogTarget(object):
             raise Weird()
         if kind == "custom":
             raise CustomError("custom failure", 7)
+        if kind in ("nasty", "nasty-plain", "str-nonstring", "repr-raises"):
+            import threading
+
+            class Nasty(Exception):
+                """an Exception subclass that cannot even be printed"""
+                def __init__(self, *a):
+                    Exception.__init__(self, *a)
+                    if kind != "nasty-plain":
+                        self.lock = threading.Lock()       # ... nor serialised
+
+                def __str__(self):
+                    if kind == "str-nonstring":
+                        return 5
+                    if kind == "repr-raises":
+                        return "printable"
+                    raise Nasty("str of nasty")
+
+                def __repr__(self):
+                    if kind == "repr-raises":
+                        raise Nasty("repr of nasty")
+                    return "Nasty()"
+            raise Nasty("nasty")
         raise ValueError("plain failure")
+
+    @server.callback
+    def boom_callback(self, kind):
+        """exceptions of callback methods are re-raised inside the daemon by design"""
+        return self.boom(kind)
 
 
 class Resource(object):
